@@ -2052,6 +2052,12 @@ export class OptionalFieldRuntype implements Runtype {
   }
 }
 
+// Property names are always strings. A numeric key type (`Record<number, T>`, `{ [k: number]: T }`,
+// `Record<1 | 2, T>`) admits the names that are the canonical string form of a number it accepts.
+function indexKeyMatches(ctx: ValidateContext, key: Runtype, name: string): boolean {
+  return key.validate(ctx, name) || (String(Number(name)) === name && key.validate(ctx, Number(name)));
+}
+
 export class ObjectRuntype extends BaseRuntype {
   private properties: Record<string, Runtype>;
   private indexedPropertiesParser: Array<{
@@ -2183,7 +2189,7 @@ export class ObjectRuntype extends BaseRuntype {
         for (const k of extraKeys) {
           let isValid = false;
           for (const p of this.indexedPropertiesParser) {
-            if (!p.key.validate(ctx, k)) {
+            if (!indexKeyMatches(ctx, p.key, k)) {
               continue;
             }
             const v = input[k];
@@ -2227,7 +2233,7 @@ export class ObjectRuntype extends BaseRuntype {
 
         for (const p of this.indexedPropertiesParser) {
           const v = input[k];
-          const isValid = p.key.validate(ctx, k) && p.value.validate(ctx, v);
+          const isValid = indexKeyMatches(ctx, p.key, k) && p.value.validate(ctx, v);
           if (isValid) {
             const itemParsed = p.value.parseAfterValidation(ctx, v);
             const keyParsed = p.key.parseAfterValidation(ctx, k);
@@ -2252,7 +2258,7 @@ export class ObjectRuntype extends BaseRuntype {
         for (const k of extraKeys) {
           const v = input[k];
           for (const p of this.indexedPropertiesParser) {
-            const isValid = p.key.validate(ctx, k) && p.value.validate(ctx, v);
+            const isValid = indexKeyMatches(ctx, p.key, k) && p.value.validate(ctx, v);
             if (isValid) {
               const itemParsed = p.value.parseAfterValidation(ctx, v);
               const keyParsed = p.key.parseAfterValidation(ctx, k);
@@ -2289,7 +2295,7 @@ export class ObjectRuntype extends BaseRuntype {
       const extraKeys = inputKeys.filter((k) => !configKeys.includes(k));
       for (const k of extraKeys) {
         for (const p of this.indexedPropertiesParser) {
-          const keyOk = p.key.validate(ctx, k);
+          const keyOk = indexKeyMatches(ctx, p.key, k);
           const valueOk = p.value.validate(ctx, input[k]);
           const ok = keyOk && valueOk;
           if (!ok) {
